@@ -362,8 +362,9 @@ def rule_PC5(ctx, rep):
         else:
             rep.bad('PC5', fn, c, f'label {norm(lab)} is not the hop component of the current program counter')
     # peer selection: same party table on both sides
+    from . import sem as _sem
     for fn, c in ((snd, sc[0]), (rcv, rc[0])):
-        recv = c.func.value
+        recv = _sem.expand(fn, c.func.value, c, parents(fn.node))      # through a temporary holding the protocol object
         p = fn.params[1]
         if not (mentions_name(recv, p) and mentions_attr(recv, 'parties') and mentions_attr(recv, 'protocol')):
             rep.bad('PC5', fn, c, f'connection is not selected by the peer argument ({p}) from self.parties[..].protocol')
